@@ -120,7 +120,7 @@ func c01Features() []c01Feature {
 				return false
 			}
 			t := &p.Tables[0]
-			ty := r.Pick([]string{"uuid", "timestamptz", "jsonb", "inet", "date", "bigint[]"})
+			ty := r.Pick([]string{"uuid", "timestamptz", "jsonb", "inet", "date", "bigint[]", "timestamptz[]", "uuid[]", "inet[]"})
 			t.Cols = append(t.Cols, PCol{Name: "special", Type: ty, NotNull: r.Bool()})
 			p.Second = append(p.Second, PQuery{Name: "TouchSpecial", Cmd: ":exec", SQL: fmt.Sprintf("UPDATE %s SET special = $1 WHERE id = $2", t.Name)})
 			return true
@@ -130,7 +130,7 @@ func c01Features() []c01Feature {
 				return false
 			}
 			t := &p.Tables[0]
-			ty := r.Pick([]string{"uuid", "timestamptz", "jsonb", "inet", "text[]", "macaddr"})
+			ty := r.Pick([]string{"uuid", "timestamptz", "jsonb", "inet", "text[]", "macaddr", "timestamptz[]", "uuid[]", "jsonb[]"})
 			t.Cols = append(t.Cols, PCol{Name: "special", Type: ty, NotNull: r.Bool()})
 			p.Second = append(p.Second, PQuery{Name: "ReadSpecial", Cmd: r.Pick([]string{":one", ":many"}), SQL: fmt.Sprintf("SELECT special FROM %s WHERE id = $1", t.Name)})
 			return true
